@@ -280,9 +280,12 @@ class Program:
         try:
             import json as _json
 
-            self._known_attrs = _json.load(open(os.path.join(os.path.dirname(os.path.abspath(__file__)), 'known_units.json'), encoding='utf-8')).get('attrs')
+            _ku = _json.load(open(os.path.join(os.path.dirname(os.path.abspath(__file__)), 'known_units.json'), encoding='utf-8'))
+            self._known_attrs = _ku.get('attrs')
+            self._known_globals = _ku.get('globals')
         except Exception:
             self._known_attrs = None
+            self._known_globals = None
         self.memos: dict[str, dict] = {}
         self._load()
 
@@ -353,6 +356,9 @@ class Program:
             tree = normalise_syntax(tree)
             self.fold_log.extend(fold_new_helpers(tree, rel, self._known))
             parsed.append((rel, src, tree))
+        from .consts import write_out_new_constants
+
+        self.fold_log.extend(write_out_new_constants([(rel, tree) for rel, _s, tree in parsed], self._known_globals, self._known_attrs))
         self._fold_across_modules(parsed)
         from .memo import read_memos_cold
 
